@@ -83,15 +83,40 @@ def _derived_vars(fn, seeds):
     return der
 
 
-def check_loader(P, R, tu, fname, rule_img="RF10-image", rule_heap="RF10-heap", min_img=8, min_heap=0):
+def check_loader(P, R, tu, fname, rule_img="RF10-image", rule_heap="RF10-heap", min_img=8, min_heap=0, image_param=None):
+    """image_param = (pointer parameter index, size parameter index, bytes known to exist): analyse a helper that is handed
+    the file image and its size (the contract is checked at its call sites by the caller of this function)"""
     fn = tu.func(fname)
     if fn is None:
         raise AnalysisBroken("%s vanished" % fname)
     R.saw(fn)
     readers = reader_footprints(tu, fn)
     lfm = LinForms(fn, readers=readers, allocators={"mmap": (1, "image"), "malloc": (0, "heap")})
-    lfm.run()
     img_vars = _derived_vars(fn, {"mmap"})
+    if image_param is not None:
+        pi, si, known = image_param
+        base = ("base", "image")
+        lfm.objkind[base] = "image"
+        szsym = ("u", fn.params[si]["d"], "entry")
+        lfm.run(entry_env={fn.params[pi]["d"]: {base: 1}, ("size", base): {szsym: 1}},
+                entry_facts=[freeze(lf_add({szsym: 1}, lf_const(-known)))])
+        img_vars = _derived_vars(fn, set()) | {fn.params[pi]["d"]}
+        changed = True
+        while changed:
+            changed = False
+            for x in fn.walk():
+                if x.get("k") == "Var" and kids(x) and fn.tu.types[x["t"]].get("ptr") and x["d"] not in img_vars and \
+                        any(y.get("k") == "DeclRefExpr" and y.get("d") in img_vars for y in walk(kids(x)[0])):
+                    img_vars.add(x["d"])
+                    changed = True
+                elif x.get("k") == "BinaryOperator" and x.get("op") == "=":
+                    l = strip(x["c"][0])
+                    if l is not None and l.get("k") == "DeclRefExpr" and fn.tu.types[l["t"]].get("ptr") and l["d"] not in img_vars and \
+                            any(y.get("k") == "DeclRefExpr" and y.get("d") in img_vars for y in walk(x["c"][1])):
+                        img_vars.add(l["d"])
+                        changed = True
+    else:
+        lfm.run()
     n_img = n_heap = 0
     seen = set()
 
@@ -198,12 +223,28 @@ def check_loader(P, R, tu, fname, rule_img="RF10-image", rule_heap="RF10-heap", 
                       lambda st, a=a: lfm.lin(a, st))
         elif k == "ArraySubscriptExpr":
             b = linform.strip_casts_only(x["c"][0])
-            if b is None or not fn.tu.types[b["t"]].get("ptr"):
+            bt = fn.tu.types[b["t"]] if b is not None else {}
+            if b is None or not (bt.get("ptr") or (b.get("k") == "MemberExpr" and b.get("arrow") and bt.get("c", "").endswith("]"))):
                 continue
             es = lfm.elem_size(b)
             if es is None:
                 continue
             visit(x, x, es, expr_text(x), lambda st, x=x: lfm.addr_of(x, st))
+        elif k == "MemberExpr" and x.get("arrow"):
+            # p->member: the member's bytes at p + offsetof(member)
+            b = linform.strip_casts_only(x["c"][0])
+            if b is None or b.get("t") is None or not fn.tu.types[b["t"]].get("ptr"):
+                continue
+            off = lfm._member_offset(b, x.get("n"))
+            t = fn.tu.types[x["t"]] if x.get("t") is not None else {}
+            nb = (t.get("w") or 0) // 8
+            if off is None:
+                continue
+            if t.get("arr") is not None and not nb:
+                continue          # flexible array member: its elements are checked where they are subscripted
+            if not nb:
+                continue
+            visit(x, x, nb, expr_text(x), lambda st, b=b, off=off: (lambda v: lf_add(v, lf_const(off)) if v is not None else None)(lfm.lin(b, st)))
         elif k == "UnaryOperator" and x.get("op") == "*":
             b = linform.strip_casts_only(x["c"][0])
             if b is None or b.get("t") is None or not fn.tu.types[b["t"]].get("ptr"):
@@ -418,6 +459,224 @@ def check_types(P, R, tu, lfm):
         raise AnalysisBroken("%s: success return of zif_open not recognised" % rule)
 
 
+def check_tzmap(P, R):
+    tu = P.tu("libdut_a-tzmap.o")
+    rule = "RF10-tzm"
+    opn = tu.func("tzm_open")
+    if opn is None:
+        raise AnalysisBroken("tzm_open vanished")
+    lfm = check_loader(P, R, tu, "tzm_open", min_img=4)
+    cfg = opn.cfg
+    # the success return: returns the mapping itself
+    rets = []
+    for r in opn.walk():
+        if r.get("k") == "ReturnStmt" and kids(r):
+            for st in lfm.states_at(r) or []:
+                v = lfm.lin(kids(r)[0], st)
+                if v is not None and any(s_ != ONE and s_[0] == "base" for s_ in v):
+                    rets.append(r)
+                    break
+    if not rets:
+        raise AnalysisBroken("%s: success return of tzm_open not recognised" % rule)
+    # validators: callees handed the image and its size whose zero result leads away from the success return
+    validators = []
+    for c in opn.calls():
+        f = tu.functions.get(c.get("callee"))
+        if f is None or len(call_args(c)) < 2:
+            continue
+        sts = lfm.states_at(c) or []
+        okc = bool(sts)
+        for st in sts:
+            a0, a1 = lfm.lin(call_args(c)[0], st), lfm.lin(call_args(c)[1], st)
+            bases = [s_ for s_ in (a0 or {}) if s_ != ONE and s_[0] == "base"]
+            if a0 is None or a1 is None or len(bases) != 1 or set(a0) != {bases[0]}:
+                okc = False
+                break
+            size = st.env.get(("size", bases[0]))
+            if size is None or size != a1:
+                okc = False
+        if okc:
+            validators.append((c, f))
+    if not validators:
+        R.finding(rule, opn, "validation call", "tzm_open returns the mapping without handing it, together with the file size, to a "
+                  "validation routine: tzm_find follows offsets and scans for NUL bytes found in the file")
+        return
+    for c, f in validators:
+        # the call's result guards the success return: some guard of the return mentions the call with the passing polarity
+        okg = True
+        for r in rets:
+            hit = False
+            for g in guards_of(opn, r):
+                if "pol" not in g:
+                    continue
+                cnd, pol = g["cond"], g["pol"]
+                while cnd is not None:
+                    cnd = strip(cnd)
+                    if cnd is not None and cnd.get("k") == "UnaryOperator" and cnd.get("op") == "!":
+                        pol = not pol
+                        cnd = cnd["c"][0]
+                    else:
+                        break
+                if cnd is c and pol:
+                    hit = True
+            if not hit:
+                okg = False
+        if okg:
+            R.ob(rule, "tzm_open: success return guarded by %s(image, size)" % f.name, True)
+        else:
+            R.finding(rule, opn, "validation result", "the result of %s does not decide whether tzm_open succeeds" % f.name, c)
+        # contract of the helper: at least sizeof(header) bytes exist
+        hdr = None
+        for st in lfm.states_at(c) or []:
+            size = st.env.get(("size", [s_ for s_ in lfm.lin(call_args(c)[0], st) if s_ != ONE][0]))
+            k = 0
+            while lfm.prove(lf_add(size, lf_const(-(k + 1))), st) and k < 4096:
+                k += 1
+            hdr = k if hdr is None else min(hdr, k)
+        rec = tu.record("tzmap_s")
+        if rec is None or hdr is None or hdr < rec["size"]:
+            R.finding(rule, opn, "header size", "the image handed to %s is not known to hold the %s-byte header" % (f.name, rec and rec["size"]), c)
+            continue
+        vl = check_loader(P, R, tu, f.name, min_img=6, image_param=(0, 1, hdr))
+        # post-conditions at the accepting returns: pool inside the file and non-empty; every word of the mapped names checked
+        base = ("base", "image")
+        offkey = (f.params[0]["d"], "off")
+        acc = [r for r in f.walk() if r.get("k") == "ReturnStmt" and kids(r) and const_of(kids(r)[0]) not in (0, None)]
+        if not acc:
+            raise AnalysisBroken("%s: accepting return of %s not recognised" % (rule, f.name))
+        for r in acc:
+            okp = True
+            for st in vl.states_at(r) or []:
+                off = st.env.get(offkey)
+                size = st.env.get(("size", base))
+                if off is None or size is None or not vl.prove(lf_add(lf_add(size, off, -1), lf_const(-rec["size"])), st) \
+                        or not vl.prove(lf_add(off, lf_const(-1)), st):
+                    okp = False
+            if okp:
+                R.ob(rule, "%s accepts only if 1 <= pool size <= file size - header (return at line %s)" % (f.name, r.get("l")), True)
+            else:
+                R.finding(rule, f, "accepting return", "the map is accepted although the name pool offset was not shown to lie inside "
+                          "the file (and to be non-zero)", r)
+        # the zone offsets: a comparison `word >= pool size` inside a loop, rejecting
+        okz = False
+        for loop in f.walk():
+            if loop.get("k") not in ("ForStmt", "WhileStmt", "DoStmt"):
+                continue
+            for x in walk(loop):
+                if x.get("k") == "BinaryOperator" and x.get("op") in (">=", "<"):
+                    for st in vl.states_at_any(x, f):
+                        l, r_ = x["c"][0], x["c"][1]
+                        for val, bound, op in ((l, r_, x["op"]), (r_, l, {">=": "<=", "<": ">"}[x["op"]])):
+                            bl = vl.lin(bound, st)
+                            if bl is not None and bl == st.env.get(offkey) and op in (">=", "<") and \
+                                    any(y.get("k") == "ArraySubscriptExpr" for y in walk(val)):
+                                okz = True
+        if okz:
+            R.ob(rule, "%s compares the zone offsets found in the file with the pool size" % f.name, True)
+        else:
+            R.finding(rule, f, "zone offsets", "the zone offsets stored in the file are not compared with the size of the name pool")
+    # tzm_find: an empty range is never dereferenced
+    fnd = tu.func("tzm_find")
+    if fnd is None:
+        raise AnalysisBroken("tzm_find vanished")
+    R.saw(fnd)
+    ptrs = {x["d"] for x in fnd.walk() if x.get("k") == "Var" and fnd.tu.types[x["t"]].get("ptr")}
+    iv = intervals.Intervals(fnd, ptr_keys=ptrs).run()
+    mids = []
+    for x in fnd.walk():
+        if x.get("k") == "BinaryOperator" and x.get("op") == "/":
+            d = linform.strip_casts_only(x["c"][0])
+            if d is not None and d.get("k") == "BinaryOperator" and d.get("op") == "-":
+                a, b = linform.strip_casts_only(d["c"][0]), linform.strip_casts_only(d["c"][1])
+                if a is not None and b is not None and a.get("k") == "DeclRefExpr" and b.get("k") == "DeclRefExpr" \
+                        and a["d"] in ptrs and b["d"] in ptrs:
+                    mids.append((x, a["d"], b["d"]))
+    if not mids:
+        raise AnalysisBroken("%s: midpoint of the bisection in tzm_find not recognised" % rule)
+    for x, hi, lo in mids:
+        cur = x
+        sts = None
+        while cur is not None and sts is None:
+            if "i" in cur:
+                sts = iv.states_at(cur)
+            cur = fnd.parent(cur)
+        okr = bool(sts) and all(iv.rel(st, lo, hi) is not None and iv.rel(st, lo, hi) <= 0 for st in sts)
+        if okr:
+            R.ob(rule, "tzm_find: the range is non-empty (lower <= upper) whenever its midpoint is dereferenced", True)
+        else:
+            R.finding(rule, fnd, "empty range", "the bisection computes and dereferences a midpoint although the range may be empty "
+                      "(a map without mapped names): lower <= upper is not implied by the conditions passed", x)
+
+
+def check_tzm_format(P, R):
+    """the record word: writer  htobe32((off & MASK) << SH)  /  reader  be32toh(word) >> SH  /  validator's byte picture"""
+    rule = "RF2-tzm"
+    wtu = P.tu("tzmap-tzmap.o")
+    rtu = P.tu("libdut_a-tzmap.o")
+    add = wtu.func("tzm_add_mn")
+    fnd = rtu.func("tzm_find")
+    if add is None or fnd is None:
+        raise AnalysisBroken("%s: tzm_add_mn / tzm_find vanished" % rule)
+    R.saw(add)
+    # writer: (param & MASK) << SH
+    w = None
+    pds = {p_["d"]: i for i, p_ in enumerate(add.params)}
+    for x in add.walk():
+        if x.get("k") == "BinaryOperator" and x.get("op") == "<<" and const_of(x["c"][1]) is not None:
+            a = linform.strip_casts_only(x["c"][0])
+            if a is not None and a.get("k") == "BinaryOperator" and a.get("op") == "&":
+                for u, v in ((a["c"][0], a["c"][1]), (a["c"][1], a["c"][0])):
+                    uu = linform.strip_casts_only(u)
+                    if uu is not None and uu.get("k") == "DeclRefExpr" and uu.get("d") in pds and const_of(v) is not None:
+                        w = (pds[uu["d"]], const_of(v), const_of(x["c"][1]), x)
+    if w is None:
+        raise AnalysisBroken("%s: the record word expression of tzm_add_mn was not recognised" % rule)
+    pidx, mask, wsh, wnode = w
+    # its byte swap: the word expression is the argument of a 32-bit byte swap (or used as is on big endian hosts)
+    # reader: swap(*op) >> SH
+    r = None
+    for x in fnd.walk():
+        if x.get("k") == "BinaryOperator" and x.get("op") == ">>" and const_of(x["c"][1]) is not None:
+            if any(y.get("k") == "UnaryOperator" and y.get("op") == "*" for y in walk(x["c"][0])):
+                r = (const_of(x["c"][1]), x)
+    if r is None:
+        raise AnalysisBroken("%s: the decoding shift of tzm_find was not recognised" % rule)
+    rsh, rnode = r
+
+    def swapped(fn, node):
+        par = fn.parent(node)
+        while par is not None and par.get("k") in CASTS:
+            par = fn.parent(par)
+        return par is not None and par.get("k") == "CallExpr" and "bswap" in (par.get("callee") or "")
+
+    def swap_inside(node):
+        return any(y.get("k") == "CallExpr" and "bswap" in (y.get("callee") or "") for y in walk(node["c"][0]))
+    if wsh == rsh and swapped(add, wnode) == swap_inside(rnode):
+        R.ob(rule, "writer stores (offset & %#x) << %d, reader decodes >> %d, byte order conversion on both sides" % (mask, wsh, rsh), True)
+    else:
+        R.finding(rule, fnd, "record word", "writer stores (offset & %#x) << %d (byte swapped: %s), reader decodes >> %d (byte swapped: %s)"
+                  % (mask, wsh, swapped(add, wnode), rsh, swap_inside(rnode)), rnode)
+    # the word must begin and end with a NUL byte: mask << shift inside bits 8..23
+    if (mask << wsh) & ~0x00ffff00 == 0:
+        R.ob(rule, "record word keeps its first and last byte zero (terminates key scans in both directions)", True)
+    else:
+        R.finding(rule, add, "record word bytes", "(offset & %#x) << %d reaches the first or last byte of the word, which delimit the keys"
+                  % (mask, wsh), wnode)
+    # the masked argument is range checked at every call
+    n = 0
+    for f in wtu.funclist:
+        for c in f.calls("tzm_add_mn"):
+            n += 1
+            iv = intervals.Intervals(f).run()
+            rg = iv.range_at(c, call_args(c)[pidx])
+            if rg is not None and rg[0] is not None and rg[0] >= 0 and rg[1] is not None and rg[1] <= mask:
+                R.ob(rule, "%s: zone offset passed to tzm_add_mn within [0, %#x]" % (f.name, mask), True)
+            else:
+                R.finding(rule, f, "zone offset range", "tzm_add_mn keeps only the bits %#x of the zone offset; the value passed here ranges "
+                          "over %s: larger offsets are truncated silently and the key maps to another name" % (mask, rg), c)
+    R.floor(rule, "callers of tzm_add_mn", n, 1)
+
+
 def fn_var(fn, name):
     for x in fn.walk():
         if x.get("k") == "Var" and x.get("n") == name:
@@ -430,8 +689,23 @@ def check(P, R, tier):
     lfm = check_loader(P, R, tu, "zif_open", min_img=12, min_heap=5)
     check_versions(P, R, tu)
     check_types(P, R, tu, lfm)
+    check_tzmap(P, R)
+    check_tzm_format(P, R)
 
 
-LEVEL = ("Decides memory safety of the loaders for all file contents: linear-form abstract interpretation with the header counts as symbols")
-RULE = "obligation = one access to the file image or to the allocated object, one version switch, one validation loop"
-ASSUME = ["the file is not modified while mapped", "64-bit sums of 32-bit file counts with small coefficients do not wrap"]
+LEVEL = ("Decides memory safety of both loaders for all file contents at once, and the structural conditions of faithful lookup: "
+         "a linear-form abstract interpretation (variables as exact linear forms over symbols for the header counts, branch "
+         "conditions as facts, trace partitioning on the version byte, a syntactic non-negative-combination prover) shows that "
+         "every access zif_open, tzm_open and the map validator make to the file image lies inside [0, file size) and every "
+         "store into the object zif_open allocates lies inside the malloc'ed size; difference bounds from the interval engine "
+         "cover the compaction loop.  Further: each accepted file version is decoded, transition types are validated against "
+         "the number of types for all indices, tzm_open succeeds only if the validator accepted the image, the validator "
+         "accepts only maps whose pool offset and zone offsets lie inside the file, tzm_find never dereferences an empty "
+         "range, and the map compiler's record word agrees with the reader's decoding and is range checked.  The in-bounds "
+         "argument for tzm_find's byte scans rests on the validated layout (NUL delimiters) and is given in DESIGN.md, not "
+         "decided by the tool; faithfulness of the bisection for all maps is not decided.")
+RULE = ("obligation = one access to the file image or to the allocated object (per function), one version switch, one validation "
+        "loop, one validator contract / post-condition, one record-word agreement")
+ASSUME = ["the file is not modified while mapped", "64-bit sums of 32-bit file counts with small coefficients do not wrap",
+          "mmap maps at least the length requested; malloc returns at least the size requested",
+          "map sources are sorted (tzmap check enforces it); unsorted sources are outside the bisection's contract"]
